@@ -97,7 +97,8 @@ impl Property for C07 {
     fn rule(&self) -> &'static str {
         "case = scenario of 1-4 metric names (pool with shared prefixes a/a_b/ab/a_total...), each with 1-3 collectors of one kind \
          (Counter, IntCounter, Gauge, IntGauge, Histogram, PullingGauge, the five vector kinds with 0-6 children) that share help and \
-         label names and differ in constant-label values; label values from the adversarial fragment pool; registry with no/one of \
+         label names and differ in constant-label values; in 17% of the scenarios with 2+ collectors some are registered together as a composite \
+         collector whose collect() order is unrelated to its desc() order; label values from the adversarial fragment pool; registry with no/one of \
          two prefixes and 0-4 common labels; 5 further rebuilds in fresh registries under generated registration permutations (each \
          HashMap gets a fresh RandomState). Oracle: model of the prescribed result (names strictly increasing, every sample exactly \
          once, lexicographic by label values, help, type, prefix, common labels) + all rebuilds and their text encodings identical. \
@@ -141,6 +142,9 @@ impl Property for C07 {
         }
         if s.colls.iter().any(|c| c.children.is_empty()) {
             rep.class("empty-vector");
+        }
+        if !s.bundles.is_empty() {
+            rep.class("composite-collector(families returned in another order than the descriptors)");
         }
         if rep.want_sample {
             rep.sample = Some(describe(&s));
